@@ -128,6 +128,7 @@ fn main() {
     let mut all = catalog::prims("Rgb565", th, &mut rng, tl);
     all.extend(catalog::texts("Rgb565", th, tl));
     all.extend(catalog::images("Rgb565", th, &mut rng, tl));
+    catalog::add_dotted(&mut all, if th { 2 } else { 5 });
     let mut n = 0usize;
     for d in &all {
         n += 1;
